@@ -174,6 +174,47 @@ pub fn run_c16<C: NatCtx>(v: &mut Env<C>) {
             l2.push(3);
             let c2 = C::x_val(&sv::shuffle_challenge(&sh, &es, &eps, &cs_e, &ch_e, tc, &l2).unwrap());
             v.h.check(Some(c2) != c0, || format!("changing the label leaves the final challenge unchanged on {}", tok));
+            // every argument, every position: an input, an OUTPUT, a permutation commitment, the label must
+            // change every per-ciphertext challenge; those, a chain commitment and the key the final one
+            use strand::context::Element;
+            let ge = v.e(&g);
+            let bump_ct = |c: &strand::elgamal::Ciphertext<C>, which: usize| if which == 0 {
+                strand::elgamal::Ciphertext::<C> { mhr: c.mhr.mul(&ge).modp(&ctx), gr: c.gr.clone() }
+            } else {
+                strand::elgamal::Ciphertext::<C> { mhr: c.mhr.clone(), gr: c.gr.mul(&ge).modp(&ctx) }
+            };
+            let us_of = |es: &[strand::elgamal::Ciphertext<C>], eps: &[strand::elgamal::Ciphertext<C>], cs: &[C::E], lab: &[u8]| -> Vec<BigUint> { sv::shuffle_us(&sh, es, eps, cs, nn, lab).unwrap().iter().map(C::x_val).collect() };
+            let c_of = |es: &[strand::elgamal::Ciphertext<C>], eps: &[strand::elgamal::Ciphertext<C>], cs: &[C::E], ch: &[C::E], lab: &[u8]| C::x_val(&sv::shuffle_challenge(&sh, es, eps, cs, ch, tc, lab).unwrap());
+            let us_base = us_of(&es, &eps, &cs_e, &label);
+            let c_base = c_of(&es, &eps, &cs_e, &ch_e, &label);
+            let all_differ = |a: &[BigUint], b: &[BigUint]| a.len() == b.len() && a.iter().zip(b.iter()).all(|(x, y)| x != y);
+            for k in 0..nn {
+                for which in 0..2 {
+                    let mut x = es.clone();
+                    x[k] = bump_ct(&es[k], which);
+                    v.h.check(all_differ(&us_base, &us_of(&x, &eps, &cs_e, &label)), || format!("the per-ciphertext challenges do not depend on component {} of input ciphertext {} on {} N={}", which, k, tok, nn));
+                    v.h.check(c_base != c_of(&x, &eps, &cs_e, &ch_e, &label), || format!("the final challenge does not depend on component {} of input ciphertext {} on {} N={}", which, k, tok, nn));
+                    let mut x = eps.clone();
+                    x[k] = bump_ct(&eps[k], which);
+                    v.h.check(all_differ(&us_base, &us_of(&es, &x, &cs_e, &label)), || format!("the per-ciphertext challenges do not depend on component {} of OUTPUT ciphertext {} on {} N={}", which, k, tok, nn));
+                    v.h.check(c_base != c_of(&es, &x, &cs_e, &ch_e, &label), || format!("the final challenge does not depend on component {} of output ciphertext {} on {} N={}", which, k, tok, nn));
+                }
+                let mut x = cs_e.clone();
+                x[k] = cs_e[k].mul(&ge).modp(&ctx);
+                v.h.check(all_differ(&us_base, &us_of(&es, &eps, &x, &label)), || format!("the per-ciphertext challenges do not depend on permutation commitment {} on {} N={}", k, tok, nn));
+                v.h.check(c_base != c_of(&es, &eps, &x, &ch_e, &label), || format!("the final challenge does not depend on permutation commitment {} on {} N={}", k, tok, nn));
+                let mut x = ch_e.clone();
+                x[k] = ch_e[k].mul(&ge).modp(&ctx);
+                v.h.check(c_base != c_of(&es, &eps, &cs_e, &x, &label), || format!("the final challenge does not depend on chain commitment {} on {} N={}", k, tok, nn));
+            }
+            v.h.check(all_differ(&us_base, &us_of(&es, &eps, &cs_e, &l2)), || format!("the per-ciphertext challenges do not depend on the label on {} N={}", tok, nn));
+            {
+                // another public key
+                let pk2 = strand::elgamal::PublicKey::<C>::from_element(&strand::verif_hooks::pk_element(&s.pk).mul(&ge).modp(&ctx), &ctx);
+                let sh2 = Shuffler::new(&pk2, &s.gens, &ctx);
+                let c2 = C::x_val(&sv::shuffle_challenge(&sh2, &es, &eps, &cs_e, &ch_e, tc, &label).unwrap());
+                v.h.check(c2 != c_base, || format!("the final challenge does not depend on the public key on {} N={}", tok, nn));
+            }
         }
         let _ = PlainProof::from(&pf);
     }
